@@ -24,6 +24,8 @@ pub struct WriteRec {
     pub drained: Option<u64>,
     pub cmd_kind: Option<String>,
     pub key_id: u64,
+    /// the call was refused on a documented precondition (no effect)
+    pub refused: bool,
 }
 
 impl WriteRec {
@@ -112,6 +114,7 @@ pub struct Hx {
     pub unreturned: Vec<(usize, usize, Op, u64)>,
     /// (sequence number, simulated clock) of every clock-bearing item, in log order
     pub clocks: Vec<(u64, Dur)>,
+    pub final_puts: Vec<(u32, St)>,
 }
 
 pub fn key_of_token(v: u64) -> u32 {
@@ -147,6 +150,7 @@ impl Hx {
                             drained: None,
                             cmd_kind: None,
                             key_id: 0,
+                            refused: false,
                         };
                         if let Some(v) = w.value() {
                             hx.by_token.insert(v, hx.writes.len());
@@ -168,6 +172,15 @@ impl Hx {
                                 let w = &mut hx.writes[*ix];
                                 w.ret = Some(s);
                                 w.ok = *ok;
+                                w.clock_ret = *clock;
+                            }
+                        }
+                        Res::Refused => {
+                            if let Some(ix) = hx.widx.get(&(*t, *i)) {
+                                let w = &mut hx.writes[*ix];
+                                w.ret = Some(s);
+                                w.ok = false;
+                                w.refused = true;
                                 w.clock_ret = *clock;
                             }
                         }
@@ -241,6 +254,7 @@ impl Hx {
                 Item::FinalRead { kind, key, val } => hx.final_reads.push((*kind, *key, *val)),
                 Item::Obs(o) => hx.obs.push((s, o.clone())),
                 Item::Phase(p) => hx.phases.push((s, p.clone())),
+                Item::FinalPut { key, st } => hx.final_puts.push((*key, *st)),
             }
         }
         for ((t, i), (op, inv, _)) in open {
